@@ -303,3 +303,36 @@ MANIFEST_TEXT["C15"] = dict(
          "orphans = the others, read() = the heads; an orphan becomes visible in the very call that supplies its last missing ancestor; a write on top of "
          "the heads read becomes the single head; validate_op reports the least missing child. Premise: no hash collision among the nodes of the history.",
     note=NOTE, technique="Lean 4 proof (work-list invariant + representation relation) + differential correspondence check", design_ref="DESIGN.md §7 C15")
+
+# --------------------------------------------------------------------------------------------
+# C05 and the Map (key-level) parts of the generic properties
+# --------------------------------------------------------------------------------------------
+MAP_PROFILES = [dict(name="map_corr", quick=900, thorough=20000)]
+MAP_KEY_FIELDS = ["gk0", "gk1", "gk2", "keys", "len", "isempty"]
+
+PROPS["C05"] = dict(
+    lean_targets=["CrdtModel.Props.C05"], audit="CrdtModel/Audit/C05.lean",
+    required_theorems=["Crdt.C05." + t for t in ["key_present_iff", "get_rm_clock", "add_clock_entry_points", "update_wins", "removed_if_all_covered", "deferred_iff",
+                                                  "keys_converge", "rm_step_value_partial", "rm_step_other_partial"]] + ["Crdt.CMap.keys_rep", "Crdt.CMap.merge_sim", "Crdt.CMap.apply_sim"],
+    profiles=MAP_PROFILES,
+    oracle_fields=MAP_KEY_FIELDS + ["rctx", "conv"],
+    explanation="Map key level: the triple (clock, entry clocks, deferred) is proved to behave exactly like an Orswot of keys (simulation lemmas apply_sim / merge_sim for an ARBITRARY value type), so the "
+                "Orswot representation theorem transfers: key presence, get(k).rm_clock, pending key removes, key-level convergence as functions of the knowledge set, at every nesting depth. "
+                "Nested contents: local reset semantics of one key-remove step proved (_partial); the global nested statement is false on the unchanged tree (known findings, witnesses replayed). "
+                "Correspondence: Map<_,MVReg>, Map<_,Orswot>, Map<_,Map<_,MVReg>> histories (causal/FIFO/any, merges, snapshots, reset_remove, validate, ==) with the full private state and every read entry point compared; "
+                "oracle: key-level reads against the Lean spec of the key-level knowledge.",
+    statement_coverage="key-level statement proved in full for every value type and depth; nested-content statement: local step proved, global statement false (known findings KF-C05-*)",
+    assumptions=["each actor edits at one replica; a dot names one update (LogWF on the key-level log)"],
+)
+MANIFEST_TEXT["C05"] = dict(
+    text="Unbounded Lean theorems, generic in the value type (hence every nesting depth): a Map key is present iff some known update of it is not covered by a known remove of it; get(k).rm_clock is exactly the surviving "
+         "update witnesses; pending key removes characterised and preserved by merge; key-level convergence. Obtained by proving that Map's key level simulates Orswot. Nested contents: one-step reset semantics proved; the "
+         "global nested claim is false on the pinned tree and recorded as known findings with replayed witnesses.",
+    note=NOTE, technique="Lean 4 proof (simulation of Orswot by Map's key level + Orswot representation theorem) + differential correspondence check", design_ref="DESIGN.md §7 C05")
+
+for _pid in ("C01", "C02", "C03", "C07", "C08", "C09", "C20"):
+    PROPS[_pid]["lean_targets"] = PROPS[_pid]["lean_targets"] + ["CrdtModel.Props.C05"]
+    PROPS[_pid]["required_theorems"] = PROPS[_pid]["required_theorems"] + ["Crdt.C05.keys_converge", "Crdt.CMap.keys_rep"]
+    PROPS[_pid]["profiles"] = PROPS[_pid]["profiles"] + MAP_PROFILES
+    PROPS[_pid]["oracle_fields"] = PROPS[_pid]["oracle_fields"] + MAP_KEY_FIELDS
+    PROPS[_pid]["statement_coverage"] = PROPS[_pid]["statement_coverage"].replace("Map pending", "Map: key level proved (C05.keys_converge / keys_rep); nested contents false on the pinned tree (known findings)")
